@@ -53,7 +53,7 @@ func (g *gen) id(p string) string { g.n++; return fmt.Sprintf("%s%d", p, g.n) }
 func Generate(r *rand.Rand) Program {
 	g := &gen{r: r}
 	np := 2 + r.Intn(4)
-	pats := []func(){g.pipeline, g.fanInOut, g.pingPong, g.semaphore, g.selectMerge, g.slots, g.closeBroadcast, g.mutexMap, g.generatorClosure, g.nestedSpawn, g.nativeGo, g.closeSentinel, g.nativeGo}
+	pats := []func(){g.pipeline, g.fanInOut, g.pingPong, g.semaphore, g.selectMerge, g.slots, g.closeBroadcast, g.mutexMap, g.generatorClosure, g.nestedSpawn, g.nativeGo, g.closeSentinel, g.nativeGo, g.selectSend}
 	for i := 0; i < np; i++ {
 		pats[r.Intn(len(pats))]()
 	}
@@ -267,4 +267,28 @@ func (g *gen) closeSentinel() {
 	fmt.Fprintf(&b, "\tsum, done, s := 0, false, \"\"\n\tfor !done {\n\t\tselect {\n\t\tcase v := <-data:\n\t\t\tsum += v\n\t\tcase n := <-names:\n\t\t\ts += n\n\t\tcase code := <-quit:\n\t\t\tsum += code * 1000\n\t\t\tdone = true\n\t\t}\n\t}\n")
 	fmt.Fprintf(&b, "\tcode, ok := <-quit\n\tprintln(%q, sum, len(s), code, ok)\n}", name)
 	g.add("close-sentinel", name, b.String())
+}
+
+// selectSend: a select with several send cases carrying different values to
+// different channels; each consumer checks that it only sees its own values.
+func (g *gen) selectSend() {
+	name := g.id("selsend")
+	nc := 2 + g.r.Intn(3)
+	rounds := 3 + g.r.Intn(12)
+	var b strings.Builder
+	fmt.Fprintf(&b, "func %s() {\n\tres := make(chan [2]int)\n", name)
+	for c := 0; c < nc; c++ {
+		fmt.Fprintf(&b, "\tc%d := make(chan int%s)\n", c, g.buf())
+		fmt.Fprintf(&b, "\tgo func() {\n\t\tn, bad := 0, 0\n\t\tfor v := range c%d {\n\t\t\tn++\n\t\t\tif v/1000 != %d {\n\t\t\t\tbad++\n\t\t\t}\n\t\t}\n\t\tres <- [2]int{n, bad}\n\t}()\n", c, c+1)
+	}
+	fmt.Fprintf(&b, "\tfor i := 0; i < %d; i++ {\n\t\tselect {\n", rounds)
+	for c := 0; c < nc; c++ {
+		fmt.Fprintf(&b, "\t\tcase c%d <- %d + i:\n", c, (c+1)*1000)
+	}
+	fmt.Fprintf(&b, "\t\t}\n\t}\n")
+	for c := 0; c < nc; c++ {
+		fmt.Fprintf(&b, "\tclose(c%d)\n", c)
+	}
+	fmt.Fprintf(&b, "\ttotal, bad := 0, 0\n\tfor i := 0; i < %d; i++ {\n\t\tr := <-res\n\t\ttotal += r[0]\n\t\tbad += r[1]\n\t}\n\tprintln(%q, total, bad)\n}", nc, name)
+	g.add("select-send", name, b.String())
 }
